@@ -58,6 +58,9 @@ type run struct {
 	epoch int
 	// cuts[N] = shadow at job checkpoint N (union over the operators' acks) — M4
 	cuts map[uint64]map[string]ophar.KeyShadow
+	// cutEpoch: the deploy epoch whose operators acknowledged the id. A restarted job numbers on from the newest
+	// published snapshot, so an id whose checkpoint never completed is used again by the next assembly.
+	cutEpoch map[uint64]int
 	ep   *epochs
 	chunk func(reader, call int) int
 }
@@ -143,6 +146,14 @@ func newRun(c *lib.Ctx, o runOpts) *run {
 	}
 	x.cl = cluster.New(cfg)
 	x.cl.SetChecks(exactlyOnceCheck)
+	if lib.Known("in-place-redeploy") {
+		c.Exclude = func() string {
+			if n := x.cl.RedeployedInPlace(); n != "" {
+				return "known finding in-place-redeploy: " + n + " accepted a second Deploy in place"
+			}
+			return ""
+		}
+	}
 	x.cl.TimerFn = func(key []byte, t int64) ophar.Program {
 		return ophar.Program{{Op: "PUT", NS: "fired", EK: []byte(strconv.FormatInt(t, 10)), V: []byte("1")}}
 	}
@@ -157,9 +168,19 @@ func newRun(c *lib.Ctx, o runOpts) *run {
 	x.cl.OnOpAck = func(a cluster.OpAck, w *cluster.Worker) {
 		rng := partitioning.KeyGroupRange{Start: a.Start, End: a.End}
 		snap := w.H.ShadowSnapshot(func(k []byte) bool { return rng.IncludesKeyGroup(partitioning.KeyGroup(ophar.KeyGroupOf(k, o.keyGroups))) })
+		g := 0
+		if x.ep != nil {
+			x.ep.mu.Lock()
+			g = len(x.ep.restore)
+			x.ep.mu.Unlock()
+		}
 		x.cl.Lock()
-		if x.cuts[a.ID] == nil {
+		if x.cutEpoch == nil {
+			x.cutEpoch = map[uint64]int{}
+		}
+		if pg, ok := x.cutEpoch[a.ID]; x.cuts[a.ID] == nil || !ok || pg != g {
 			x.cuts[a.ID] = map[string]ophar.KeyShadow{}
+			x.cutEpoch[a.ID] = g
 		}
 		for k, v := range snap {
 			x.cuts[a.ID][k] = v
